@@ -8,11 +8,19 @@
                           assembly add_annotated_formulas / rename_conflicting_symbols /
                           create_unique_formula_names / decompose; [ident_ok]: complement of
                           IdentClass, the identifier shapes that break the property on the
-                          unchanged tree (known findings, witnesses below). *)
+                          unchanged tree (known findings, witnesses below);
+   - Model/TffText.v      [read_problem]: the specification READER of the emitted bytes (lexer,
+                          statements split at '.', `tff(name, type, ident: sig)` declarations,
+                          `tff(name, role, formula)` with the formula read by [tff_read]);
+                          [problem_display] (Model/ProblemPrint.v) is the model of the BYTES
+                          `impl Display for Problem` writes, compared byte-for-byte with the real
+                          output by the correspondence op `problem_display`.
+   C09 itself is about the structured view [emit pb]; C09_display_reads_as_emit ties it to the
+   bytes, C09_text is the statement about the emitted text. *)
 From Coq Require Import List String ZArith Bool.
 Import ListNotations.
-From Anthem Require Import Syntax.Fol Syntax.Tff Sem.TffWt Model.Problem Model.TptpPrint Model.ProblemPrint
-  Proofs.PipelineOk Proofs.ProblemWt Proofs.ClosedOk.
+From Anthem Require Import Syntax.Fol Syntax.Tff Sem.TffWt Model.Problem Model.TptpPrint Model.ProblemPrint Model.TffText
+  Proofs.PipelineOk Proofs.ProblemWt Proofs.ClosedOk Proofs.ProblemCtx Proofs.ProblemText.
 Open Scope string_scope.
 
 Definition IdentClass (pb : problem) : Prop := ident_ok pb = false.
@@ -29,6 +37,55 @@ Theorem C09 :
   wt_problem (emit pb) = true.
 Proof. exact pipeline_wt. Qed.
 Print Assumptions C09.
+
+(* ---------- the EMITTED TEXT ----------
+   The bytes the model of `impl Display for Problem` writes are read back, by the specification
+   reader, as exactly the structured problem [emit pb] that C09 type-checks.  Premises: those of
+   C09 plus the parser image (a comparison has at least one guard; the parsers cannot produce
+   another formula, but the type [formula] can: see C09_ex_parser_image_needed). *)
+Theorem C09_display_reads_as_emit :
+  forall (raw : problem) (d : decomposition) (pb : problem) (txt : string),
+  (forall a, In a (pb_formulas raw) -> closed_formula (pf_formula a) = true) ->
+  (forall a, In a (pb_formulas raw) -> cmps_nonempty (pf_formula a) = true) ->
+  In pb (pipeline raw d) -> ~ IdentClass pb ->
+  problem_display pb = Some txt -> read_problem txt = Some (emit pb).
+Proof. exact pipeline_display_reads_as_emit. Qed.
+Print Assumptions C09_display_reads_as_emit.
+
+(* C09 about the text: the emitted bytes exist (the formatter does not panic), they are a readable
+   TFF problem, and that problem is well-formed, well-typed and self-contained *)
+Theorem C09_text :
+  forall (raw : problem) (d : decomposition) (pb : problem),
+  (forall a, In a (pb_formulas raw) -> closed_formula (pf_formula a) = true) ->
+  (forall a, In a (pb_formulas raw) -> cmps_nonempty (pf_formula a) = true) ->
+  In pb (pipeline raw d) -> ~ IdentClass pb ->
+  exists (txt : string) (tp : tff_problem),
+    problem_display pb = Some txt /\ read_problem txt = Some tp /\ wt_problem tp = true.
+Proof. exact pipeline_text_wt. Qed.
+Print Assumptions C09_text.
+
+(* the reading half also holds for formulas with free variables (external_equivalence.rs does not
+   close specification formulas): any problem outside IdentClass whose formulas are lexically in
+   the parser image ([wf_lex]: words of the right class, no empty comparison or binder) *)
+Theorem C09_display_reads_as_emit_open :
+  forall (pb : problem) (txt : string), ~ IdentClass pb ->
+  (forall a, In a (pb_formulas pb) -> wf_lex (pf_formula a) = true) ->
+  problem_display pb = Some txt -> read_problem txt = Some (emit pb).
+Proof. exact display_reads_as_emit_open. Qed.
+Print Assumptions C09_display_reads_as_emit_open.
+
+(* the side conditions of the reading are implied by C09's premises: every formula of an emitted
+   problem outside IdentClass that is closed and in the parser image is lexically fine *)
+Theorem C09_premises_give_wf_lex :
+  forall (pb : problem) (a : pformula), ~ IdentClass pb -> In a (pb_formulas pb) ->
+  closed_formula (pf_formula a) = true -> cmps_nonempty (pf_formula a) = true ->
+  wf_lex (pf_formula a) = true.
+Proof. exact premises_give_wf_lex. Qed.
+Print Assumptions C09_premises_give_wf_lex.
+
+Theorem C09_display_total : forall pb : problem, exists txt, problem_display pb = Some txt.
+Proof. exact problem_display_total. Qed.
+Print Assumptions C09_display_total.
 
 (* the components that do not depend on identifiers hold for EVERY emitted problem, also inside
    IdentClass: exactly one conjecture, and formula names unique among themselves *)
@@ -68,7 +125,41 @@ Example C09_ex_renamed :
   verdicts (one (FBin CAnd (atom "p" []) (atom "q" [GSym (SSym "p")]))) = [(true, true)].
 Proof. vm_compute. reflexivity. Qed.
 
+(* what the reader makes of the emitted bytes: Some true = readable and well-typed *)
+Definition text_verdicts (raw : problem) : list (option bool) :=
+  map (fun pb => match problem_display pb with
+                 | Some txt => option_map wt_problem (read_problem txt)
+                 | None => None
+                 end) (pipeline raw DIndependent).
+Example C09_ex_clean_text :
+  text_verdicts (one (FQ QForall [mkvar "X" SGeneral; mkvar "N" SInteger]
+                  (FBin CImp (atom "p" [GVar "X"; GSym (SSym "a")])
+                             (FAtomic (ACmp (GInt (IVar "N")) [mkguard RLt (GInt (IFun "n")); mkguard RLe (GSym (SSym "b"))])))))
+  = [Some true].
+Proof. vm_compute. reflexivity. Qed.
+(* symbolic constants that end in a sort suffix, and the renamed constant p__s, are inside the
+   property (audit A6/A7: `p(a_s)` satisfied C09's premises but not C06_reading's): the text
+   declares `a_s: symbol` and reads back as [emit] *)
+Example C09_ex_suffix_symbol :
+  verdicts (one (atom "p" [GSym (SSym "a_s"); GSym (SSym "n_i")])) = [(true, true)] /\
+  text_verdicts (one (atom "p" [GSym (SSym "a_s"); GSym (SSym "n_i")])) = [Some true] /\
+  text_verdicts (one (FBin CAnd (atom "p" []) (atom "q" [GSym (SSym "p")]))) = [Some true].
+Proof. repeat split; vm_compute; reflexivity. Qed.
+(* why the parser-image premise: the value `ACmp t []` (not producible by the parsers) passes
+   C09's premises, is printed as the empty string, and `tff(.., conjecture, ).` is unreadable *)
+Example C09_ex_parser_image_needed :
+  verdicts (one (FAtomic (ACmp GInf []))) = [(true, true)] /\
+  text_verdicts (one (FAtomic (ACmp GInf []))) = [None].
+Proof. split; vm_compute; reflexivity. Qed.
+
 (* ---------- the members of IdentClass: each really breaks the property ---------- *)
+(* a quantifier block that binds one variable twice: `forall X X (..)` is accepted by anthem's
+   parser and printed `![X_g: general, X_g: general]: ..`; the text is readable but the strict
+   checker rejects the block (TffWt.v) *)
+Example known_duplicate_binder :
+  verdicts (one (FQ QForall [mkvar "X" SGeneral; mkvar "X" SGeneral] (atom "p" [GVar "X"]))) = [(false, false)] /\
+  text_verdicts (one (FQ QForall [mkvar "X" SGeneral; mkvar "X" SGeneral] (atom "p" [GVar "X"]))) = [Some false].
+Proof. split; vm_compute; reflexivity. Qed.
 (* F8: leading underscore in a symbolic constant / predicate / variable (not TPTP words) *)
 Example known_underscore_symbol : verdicts (one (atom "p" [GSym (SSym "_a")])) = [(false, false)].
 Proof. vm_compute. reflexivity. Qed.
